@@ -5,7 +5,7 @@ JSON glue shared by the driver handlers of C14, C15 and C10: decoding of paths, 
 configurations, declarations and support-library listings.
 -/
 namespace Pydjinni.Drv.SysJson
-open Lean Pydjinni.Gen Pydjinni.Sys
+open Lean Pydjinni.GenC Pydjinni.SysC
 
 def strsJ (l : List String) : Json := Json.arr (l.map Json.str).toArray
 def pathJ (p : Path) : Json := Json.str p.toString
